@@ -6,6 +6,7 @@ from typing import TYPE_CHECKING, Any
 
 from hypergraph.runners._shared.helpers import collect_as_lists, map_inputs_to_func_params
 from hypergraph.runners._shared.types import PauseExecution, PauseInfo, RunResult, RunStatus
+from hypergraph.runners._shared.validation import _get_interrupt_outputs
 
 if TYPE_CHECKING:
     from hypergraph.events.processor import EventProcessor
@@ -60,9 +61,12 @@ class AsyncGraphNodeExecutor:
         # Translate renamed input keys back to original inner graph names
         inner_inputs = map_inputs_to_func_params(node, inputs)
         # Resume values addressed to this nested graph ("<node name>.<key>", see PauseInfo.response_key)
+        # (only the answers of interrupts inside it: any other dotted key is an unknown
+        # input, which the sync runner cannot forward either)
         prefix = f"{node.name}."
+        resume_keys = _get_interrupt_outputs(node.graph._nodes)
         for key, value in state.values.items():
-            if key.startswith(prefix):
+            if key.startswith(prefix) and key[len(prefix) :] in resume_keys:
                 inner_inputs[key[len(prefix) :]] = value
 
         map_config = node.map_config
